@@ -126,6 +126,11 @@ class SmallConn(VConnection):
     """Real connection with a small stream-id space (public tunable), so that 'at capacity' is reachable
     with real requests and a leaked unit of capacity is a large fraction of the whole."""
     max_in_flight = 4
+    fed = 0
+
+    def feed(self, data):
+        self.fed += 1              # frames the reactor handed to this connection (harness-side traffic meter)
+        VConnection.feed(self, data)
 
 
 class Holder(object):
@@ -266,7 +271,8 @@ class HistExec(object):
         return 'Event.wait'
 
     def on_wait_begin(self, ev, timeout):
-        pass
+        if self.hb is not None and ev is getattr(self.hb, '_shutdown_event', None):
+            self.fed_round_end = [c.fed for c in self.conns]      # a round (or the thread's start-up) ends here
 
     def on_wait_end(self, ev, r):
         if not r and self.hb is not None and ev is not self.hb._shutdown_event:
@@ -308,6 +314,13 @@ class HistExec(object):
         if k >= 1:
             for c, spec in zip(self.conns, self.params['conns']):
                 self.prepare(c, spec['rounds'][k - 1][0])
+        # traffic meter: frames received during the interval that just elapsed, and frames received during the previous
+        # round beyond the answer to that round's own heartbeat (e.g. a real cluster refreshing its node list)
+        fed_now = [c.fed for c in self.conns]
+        prev_fed = getattr(self, 'fed_at_hook', fed_now)
+        self.traffic = [b > a for a, b in zip(self.fed_round_end, fed_now)]
+        self.stray = [(e - a) for a, e in zip(prev_fed, self.fed_round_end)]
+        self.fed_at_hook = fed_now
         self.pre = [(dead(c), capacity(c), len(c.pushed), self.outstanding(c)) for c in self.conns]
         self.options_mark = len(self.options_seen)
         self.returned_mark = len(self.returned)
@@ -354,6 +367,7 @@ class HistExec(object):
     # -- judgement of one finished round (independent of the driver: spec of the property only)
     def judge_round(self, k):
         specs = self.params['conns']
+        self.this_round = {}
         for i, c in enumerate(self.conns):
             was_dead, cap0, pushed0, out0 = self.pre[i]
             state, reply = ('fresh', None) if k == 0 else tuple(specs[i]['rounds'][k - 1])
@@ -363,10 +377,29 @@ class HistExec(object):
             cap1 = capacity(c)
             tag = 'r%d c%d %s/%s' % (k, i, state, reply)
             fact = None
+            # the situation as the harness measured it (the scripted one, corrected by the traffic meter)
+            answered_prev = 0
+            if k >= 1 and getattr(self, 'last_round', None) is not None:
+                answered_prev = self.last_round.get(i, 0)
+            stray = self.stray[i] - answered_prev > 0 if k >= 1 else False
+            if not was_dead and state in QUIET_STATES and not self.traffic[i]:
+                raise HarnessError('%s: the interval was meant to carry traffic but no frame reached the connection' % tag)
+            if not was_dead and state not in ('fresh',) + QUIET_STATES and self.traffic[i]:
+                state = 'busy'            # traffic nobody scripted (real cluster housekeeping)
+            elif not was_dead and state in SEND_STATES and cap0[0] >= c.max_request_id:
+                state = 'full'            # the outstanding requests have used up the stream ids
             if was_dead:
                 fact = 'dead-before'
                 if n_opt:
                     self.problem('options-on-dead-connection', '%s: %d OPTIONS sent on a defunct/closed connection' % (tag, n_opt))
+            elif stray and state not in ('fresh',) + QUIET_STATES and n_opt == 0:
+                # frames arrived during the previous round after the connection may already have been examined:
+                # whether that counts as traffic "during the interval" is not decided by the statement
+                fact = 'ambiguous-traffic'
+                if now_dead:
+                    self.problem('busy-connection-killed/stray', '%s: connection defunct/closed after the round' % tag)
+                elif cap1 != cap0:
+                    self.problem('capacity-changed/busy', '%s: (in_flight, free ids) %r -> %r' % (tag, cap0, cap1))
             elif state in ('fresh',) + QUIET_STATES:
                 fact = 'quiet'
                 self.flags.add('fresh' if state == 'fresh' else 'busy')
@@ -431,6 +464,8 @@ class HistExec(object):
                     self.problem('stream-id-accounting', '%s: free %r + outstanding %r != 0..%d' % (
                         tag, sorted(c.request_ids), out1, c.highest_request_id))
             self.facts.append((k, i, fact))
+            self.this_round[i] = 1 if (n_opt and reply in ('supported', 'error', 'ready')) else 0
+        self.last_round = self.this_round
 
     def send(self, c, query):
         return client_send(self, c, query)
